@@ -343,7 +343,7 @@ def _cls(it, name):
     return _CLS[name]
 
 
-@family("masks/masked_autoregressive_mlp", ["C09"])
+@family("masks/masked_autoregressive_mlp", ["C09", "C08", "C13"])
 def masked_mlp(ctx):
     """MaskedAutoregressive.__init__ (rank construction) + masked_autoregressive_mlp, depth 0..2 (bounded), every size symbolic:
     after ANY update of the raw weights, a non-zero unwrapped weight [o, i] of layer l implies rank_{l+1}(o) >= rank_l(i)
@@ -380,6 +380,14 @@ def masked_mlp(ctx):
             ctx.oblige(f"C09/MaskedAutoregressive.__init__[{tag0}]/struct/returns", len(rets) >= 1 and len(rets) == len(paths), [], props, kind="applicability", fn=fnq, note=f"outcomes: {[q.outcome for q in paths]}")
             for pk, p in enumerate(rets):
                 tag = tag0 if len(rets) == 1 else f"{tag0},path{pk}"
+                o_ = p.value
+                okshape = isinstance(o_.shape, tuple) and len(o_.shape) == 1
+                ctx.oblige(f"C08/MaskedAutoregressive.__init__[{tag}]/post/shape_is_dim", lift(o_.shape[0]) == dim if okshape else z3.BoolVal(False), p.cond, ["C09", "C08", "C13"], fn=fnq, replay=dict(kind="simple", cls="MaskedAutoregressive", vars={}))
+                if conditional:
+                    okc = isinstance(o_.cond_shape, tuple) and len(o_.cond_shape) == 1
+                    ctx.oblige(f"C08/MaskedAutoregressive.__init__[{tag}]/post/cond_shape_is_cond_dim", lift(o_.cond_shape[0]) == cd if okc else z3.BoolVal(False), p.cond, ["C09", "C08", "C13"], fn=fnq, replay=dict(kind="simple", cls="MaskedAutoregressive", vars={}))
+                else:
+                    ctx.oblige(f"C08/MaskedAutoregressive.__init__[{tag}]/post/unconditional", o_.cond_shape is None, [], ["C09", "C08", "C13"], kind="struct", fn=fnq, replay=dict(kind="simple", cls="MaskedAutoregressive", vars={}))
                 _masked_path(ctx, it, p, tag, props, MQ, fnq, ranks_of, depth, conditional, dim, cd, width, npar)
 
 
